@@ -36,9 +36,13 @@ pub fn parse_header_value(input: &str) -> Vec<(&str, f32)> {
 
             for p in params {
                 if p.trim_start().starts_with("q=") {
+                    // `f32::from_str` accepts "NaN", which cannot be ordered against the other
+                    // weights: treat it like any other unparsable weight
                     if let Ok(val) = f32::from_str(p.trim_start()[2..].trim()) {
-                        value = val;
-                        break;
+                        if !val.is_nan() {
+                            value = val;
+                            break;
+                        }
                     }
                 }
             }
